@@ -337,7 +337,22 @@ def exec_point(env, case):
     out['fd'] = (st, _vec(r, case['Z']) if st == 'ok' else r)
     out['cap_fd'] = list(CAP)
     ad = env.Mock(case)
-    species = [np.array(x, dtype=float).reshape(-1, 1) for x in case['species']]
+    # scalar point: every species as an ndarray (charges, 1) or as a {charge: array([value])} dict in a non-canonical
+    # insertion order (derived deterministically from the case)
+    import random
+    r_ = random.Random(f2b(case['ne']))
+    species = []
+    for x in case['species']:
+        if r_.random() < 0.5:
+            species.append(np.array(x, dtype=float).reshape(-1, 1))
+        else:
+            order = list(range(len(x)))
+            r_.shuffle(order)
+            if r_.random() < 0.4:
+                order = sorted(order, reverse=True)
+            species.append({(z if r_.random() < 0.7 else np.int64(z)): np.array([x[z]]) for z in order})
+    if r_.random() < 0.5:
+        species = tuple(species)
     st, r = guarded(ib.match_plasma_neutrality, ad, el, species, case['ne'], case['te'], **kw)
     out['mn'] = (st, _vec(r, case['Z']) if st == 'ok' else r)
     out['cap_mn'] = list(CAP)
@@ -554,16 +569,79 @@ def _val(co, *xs):
     return v
 
 
-def make_rep(env, kind, co, grid):
-    """returns (python object handed to cherab, driver tokens) for a profile with coefficients co on the grid"""
+PATTERNS = ('affine', 'flat', 'steps', 'random', 'decay')
+
+
+def gen_field(rng, base, dim, grid, kinds, pattern, as_int=False):
+    """a profile = dict(kind, co, table, pattern): `co` affine coefficients (functions, or arrays without a table),
+    `table` explicit array values (nested like the grid).  Patterns: affine | flat (constant) | steps (piecewise constant,
+    two levels, so coordinates repeat) | random | decay (exponentially falling along the first axis)."""
+    kind = rng.choice(kinds)
+    if dim == 0:
+        pattern = 'flat'
+    isfn = kind in ('f1', 'f1n', 'f2')
+    if isfn and pattern not in ('affine', 'flat'):
+        kind = 'arr1' if dim == 1 else 'arr2'
+        isfn = False
+    co = _affine(rng, base, dim)
+    if pattern == 'flat':
+        co = [co[0]] + [0.0] * dim
+    table = None
+    if not isfn and kind != 'scalar' and pattern in ('steps', 'random', 'decay'):
+        shape = [len(g) for g in grid]
+        levels = [base * rng.uniform(0.5, 1.0), base * rng.uniform(1.0, 2.0)]
+
+        def cell(ix):
+            if pattern == 'steps':
+                return levels[rng.randint(0, 1)]
+            if pattern == 'random':
+                return base * rng.uniform(0.3, 3.0)
+            return base * 2.0 * math.exp(-3.0 * ix[0] / max(shape[0] - 1, 1)) * (1.0 if dim == 1 else 1.0 + 0.1 * ix[1])
+        if dim == 1:
+            table = [cell((a,)) for a in range(shape[0])]
+        else:
+            table = [[cell((a, b)) for b in range(shape[1])] for a in range(shape[0])]
+    f = dict(kind=kind, co=co, table=table, pattern=pattern, as_int=False)
+    if as_int and not isfn:
+        # integer-typed input (python int / integer ndarray): values rounded first, so model and truth see the same numbers
+        r = lambda v: float(max(1, round(v)))      # noqa
+        if table is None and kind != 'scalar':
+            table = [_val(co, x) for x in grid[0]] if dim == 1 else [[_val(co, x, y) for y in grid[1]] for x in grid[0]]
+        if table is not None:
+            table = [r(v) for v in table] if dim == 1 else [[r(v) for v in row] for row in table]
+        f.update(co=[r(co[0])] + [0.0] * dim, table=table, as_int=True)
+    return f
+
+
+def field_values(field, grid):
+    """flat (C order) list of the profile's values on the grid ([value] for a scalar)"""
+    dim = len(grid)
+    if field['kind'] == 'scalar' or dim == 0:
+        return [field['co'][0]]
+    if field.get('table') is not None:
+        return list(field['table']) if dim == 1 else [v for row in field['table'] for v in row]
+    if dim == 1:
+        return [_val(field['co'], x) for x in grid[0]]
+    return [_val(field['co'], x, y) for x in grid[0] for y in grid[1]]
+
+
+def make_rep(env, field, grid):
+    """returns (python object handed to cherab, driver tokens) for a field on the grid"""
+    kind, co = field['kind'], field['co']
     if kind == 'scalar':
-        return co[0], 's ' + f2b(co[0])
+        v = co[0]
+        tok = 's ' + f2b(v)
+        if field.get('as_int'):
+            return int(v), tok
+        return (np.float64(v) if field.get('np_scalar') else v), tok
     if kind == 'arr1':
-        vals = [_val(co, x) for x in grid[0]]
-        return np.array(vals), 'a1 %d %s' % (len(vals), fs(vals))
+        vals = field_values(field, grid)
+        arr = np.array(vals, dtype=int) if field.get('as_int') else np.array(vals)
+        return arr, 'a1 %d %s' % (len(vals), fs(vals))
     if kind == 'arr2':
-        vals = [[_val(co, x, y) for y in grid[1]] for x in grid[0]]
-        return np.array(vals), 'a2 %d %d %s' % (len(grid[0]), len(grid[1]), fs([v for r in vals for v in r]))
+        vals = field_values(field, grid)
+        arr = np.array(vals, dtype=int if field.get('as_int') else float).reshape(len(grid[0]), len(grid[1]))
+        return arr, 'a2 %d %d %s' % (len(grid[0]), len(grid[1]), fs(vals))
     if kind in ('f1', 'f1n'):
         a, b = co[0], co[1]
         if kind == 'f1':
@@ -573,6 +651,23 @@ def make_rep(env, kind, co, grid):
         a, b, c = co
         return env.PF2(lambda x, y: a + b * x + c * y), 'f2 %s %s %s' % (f2b(a), f2b(b), f2b(c))
     raise ValueError(kind)
+
+
+def gen_patterns(rng, dim):
+    """which of n_e, T_e, n_D, element density vary and how.  `scan`: exactly one of n_e / T_e / n_D varies, the other two
+    are constant (donor-density scan at fixed plasma, temperature scan, density scan); `steps`: each profile independently
+    piecewise constant (coordinates repeat in every argument); `affine`: all vary smoothly."""
+    mode = rng.choice(['affine', 'scan', 'scan', 'scan', 'steps', 'steps']) if dim else 'affine'
+    if mode == 'affine':
+        pat = dict(ne='affine', te='affine', nd='affine', dens='affine')
+    elif mode == 'steps':
+        pat = dict(ne='steps', te='steps', nd='steps', dens=rng.choice(['steps', 'random']))
+    else:
+        var = rng.choice(['ne', 'te', 'nd', 'nd'])
+        pat = dict(ne='flat', te='flat', nd='flat', dens=rng.choice(['flat', 'random', 'affine']))
+        pat[var] = rng.choice(['affine', 'steps', 'random', 'decay'])
+        mode = 'scan-' + var
+    return mode, pat
 
 
 def gen_profile_spec(rng):
@@ -585,7 +680,7 @@ def gen_profile_spec(rng):
     if dim == 0:
         grid, kinds = [], ['scalar']
     elif dim == 1:
-        n = rng.randint(2, 6)
+        n = rng.randint(2, 7)
         xs = sorted(rng.uniform(0, 1.1) for _ in range(n))
         if min(b - a for a, b in zip(xs, xs[1:])) < 1e-6:
             xs = [0.1 * i for i in range(n)]
@@ -594,23 +689,34 @@ def gen_profile_spec(rng):
         n, m = rng.randint(2, 4), rng.randint(2, 4)
         grid = [[0.05 + 0.3 * i + rng.uniform(0, 0.1) for i in range(n)], [0.3 * i + rng.uniform(0, 0.1) for i in range(m)]]
         kinds = ['arr2', 'f2']
-    reps, coefs = {}, {}
+    mode, pat = gen_patterns(rng, dim)
+    int_te = rng.random() < 0.15
+    fields = {}
     for name, base in (('ne', case['ne']), ('te', case['te']), ('nd', case['nD'] or case['ne'] * 0.05), ('dens', case['dens'])):
-        reps[name] = rng.choice(kinds)
-        coefs[name] = _affine(rng, base, dim)
+        fields[name] = gen_field(rng, base, dim, grid, kinds, pat[name], as_int=(name == 'te' and int_te))
+        if dim == 0 and rng.random() < 0.3:
+            fields[name]['np_scalar'] = True
     donor_given = case['donor'] and rng.random() < 0.85
-    isfn = lambda k: k in ('f1', 'f1n', 'f2')      # noqa
+    isfn = lambda f: f['kind'] in ('f1', 'f1n', 'f2')      # noqa
     which = rng.choice(['frac', 'fd'])
     interp = dim > 0 and rng.random() < 0.4
-    any_fn = isfn(reps['ne']) or isfn(reps['te']) or (donor_given and isfn(reps['nd'])) or (which == 'fd' and isfn(reps['dens']))
+    any_fn = isfn(fields['ne']) or isfn(fields['te']) or (donor_given and isfn(fields['nd'])) or (which == 'fd' and isfn(fields['dens']))
     give_fv = dim > 0 and (any_fn or interp or rng.random() < 0.3)
-    return dict(case=case, dim=dim, grid=grid, reps=reps, coefs=coefs, which=which, interp=interp, give_fv=give_fv,
+    return dict(case=case, dim=dim, grid=grid, fields=fields, mode=mode, which=which, interp=interp, give_fv=give_fv,
                 fv_as_list=(dim == 2 and rng.random() < 0.5), donor_given=donor_given)
+
+
+def _legacy_fields(spec):
+    """corpus / replay files written before the `fields` format: reps + coefs"""
+    return {k: dict(kind=spec['reps'][k], co=spec['coefs'][k], table=None, pattern='affine', as_int=False) for k in spec['reps']}
 
 
 def build_profile(env, spec):
     """python objects + driver line for a profile spec"""
     pc = dict(spec)
+    if 'fields' not in pc:
+        pc['fields'] = _legacy_fields(spec)
+        pc.setdefault('mode', 'affine')
     case, dim, grid = spec['case'], spec['dim'], spec['grid']
     fvtok, fv = 'fv0', None
     if dim == 1 and spec['give_fv']:
@@ -622,14 +728,15 @@ def build_profile(env, spec):
             fv = list(fv)
     objs, toks = {}, {}
     for name in ('ne', 'te', 'nd', 'dens'):
-        objs[name], toks[name] = make_rep(env, spec['reps'][name], spec['coefs'][name], grid)
+        objs[name], toks[name] = make_rep(env, pc['fields'][name], grid)
     dtok = toks['nd'] if spec['donor_given'] else 'dnone'
     line = '%s %d %s %s %s %s %s %s %s %s %s %s' % (
         'pfrac' if spec['which'] == 'frac' else 'pfd', case['Z'], '1' if case['donor'] else '0', f2b(case['p']), f2b(case['q']),
         fs(case['s']), fs(case['a']), fs(c_eff(case)), fvtok, toks['ne'], toks['te'], dtok)
     if spec['which'] == 'fd':
         line += ' ' + toks['dens']
-    pc.update(fv=fv, objs=objs, line=line)
+    pc.update(fv=fv, objs=objs, line=line, reps={k: v['kind'] for k, v in pc['fields'].items()},
+              values={k: field_values(v, grid) for k, v in pc['fields'].items()})
     return pc
 
 
@@ -680,22 +787,29 @@ def exec_profile(env, pc):
 
 def truth_at(pc, k):
     """the (dens, ne, te, nD) values of the profile case at flat index k, computed by the harness (S side)"""
-    g = pc['grid']
-    if pc['dim'] == 0:
-        xs = ()
-    elif pc['dim'] == 1:
-        xs = (g[0][k],)
-    else:
-        xs = (g[0][k // len(g[1])], g[1][k % len(g[1])])
-
     def v(name):
-        kind, co = pc['reps'][name], pc['coefs'][name]
-        return co[0] if kind == 'scalar' else _val(co, *xs)
+        vals = pc['values'][name]
+        return vals[k] if len(vals) > 1 else vals[0]
     return v('dens'), v('ne'), v('te'), (v('nd') if pc['donor_given'] else 0.0)
 
 
 def profile_spec_of(pc):
-    return {k: pc[k] for k in ('case', 'dim', 'grid', 'reps', 'coefs', 'which', 'interp', 'give_fv', 'fv_as_list', 'donor_given')}
+    return {k: pc[k] for k in ('case', 'dim', 'grid', 'fields', 'mode', 'which', 'interp', 'give_fv', 'fv_as_list', 'donor_given')}
+
+
+def scalar_call(env, case, which, ne, te, nd, donor_given, dens=None, species=None):
+    """the same physical point through the scalar form of the public entry point; returns the vector over charges or None"""
+    ib = env.ib
+    kw = dict(tcx_donor=env.hydrogen if case['donor'] else None, tcx_donor_n=(float(nd) if donor_given else None),
+              tcx_donor_charge=case['dq'])
+    ad, el = env.Mock(case), env.element(case)
+    if which == 'frac':
+        st, r = guarded(ib.fractional_abundance, ad, el, float(ne), float(te), **kw)
+    elif which == 'fd':
+        st, r = guarded(ib.from_elementdensity, ad, el, float(dens), float(ne), float(te), **kw)
+    else:
+        st, r = guarded(ib.match_plasma_neutrality, ad, el, [np.array(x, dtype=float).reshape(-1, 1) for x in species], float(ne), float(te), **kw)
+    return _vec(r, case['Z']) if st == 'ok' else None
 
 
 def check_profile(ctx, env, pc, o, compare=True):
@@ -709,6 +823,20 @@ def check_profile(ctx, env, pc, o, compare=True):
     for k_, v_ in pc['reps'].items():
         if k_ in ('ne', 'te') or (k_ == 'nd' and pc['donor_given']) or (k_ == 'dens' and pc['which'] == 'fd'):
             ctx.count('rep:%s:%s' % (k_, v_))
+    ctx.count('profile-mode:' + pc.get('mode', 'affine'))
+    if st == 'ok' and pc['dim'] > 0:
+        # how often the stream really contains what a memoising / mis-keyed loop would get wrong
+        seen = {}
+        for k in range(flat.shape[0]):
+            dens_k, ne_k, te_k, nd_k = truth_at(pc, k)
+            for tagname, key, rest in (('same-ne-te-other-nD', (ne_k, te_k), nd_k), ('same-ne-nD-other-te', (ne_k, nd_k), te_k),
+                                       ('same-te-nD-other-ne', (te_k, nd_k), ne_k)):
+                prev = seen.setdefault((tagname, key), rest)
+                if prev != rest:
+                    seen[('hit', tagname)] = True
+        for tagname in ('same-ne-te-other-nD', 'same-ne-nD-other-te', 'same-te-nD-other-ne'):
+            if seen.get(('hit', tagname)):
+                ctx.count('profile-repeats:' + tagname + (':donor' if case['donor'] and pc['donor_given'] else ''))
     desc = dict(kind='profile', entry=name, spec=profile_spec_of(pc))
     compare = compare and o is not None
     if compare and o == 'err':
@@ -797,6 +925,27 @@ def check_profile(ctx, env, pc, o, compare=True):
             ctx.count('S-fail:' + sig)
             ctx.fail(sig, '%s at index %d (n_e=%.4g, T_e=%.4g, n_D=%.4g, representations %r): %s' % (name, k, ne_k, te_k, nd_k, pc['reps'], text),
                      dict(index=k, **desc))
+    # S: every index against the scalar form of the direct entry point at the same (n_e, T_e, n_D, density)
+    which = pc['which']
+    worst_sc = 0.0
+    for k in range(npts):
+        dens_k, ne_k, te_k, nd_k = truth_at(pc, k)
+        ref = scalar_call(env, case, which, ne_k, te_k, nd_k, pc['donor_given'], dens=dens_k)
+        if ref is None:
+            ctx.count('scalar-reference-unavailable')
+            continue
+        sc = dens_k if which == 'fd' else 1.0
+        dv = max(abs(x - y) for x, y in zip(ref, flat[k])) / sc
+        worst_sc = max(worst_sc, dv)
+        if not dv <= 1e-9:
+            nprob += 1
+            sig = 'C09:%s:differs-from-scalar-call' % name
+            ctx.count('S-fail:' + sig)
+            ctx.fail(sig, '%s at index %d differs by %.3g from %s called with the scalars n_e=%.6g, T_e=%.6g, n_D=%.6g (profile mode %s, '
+                          'representations %r)' % (name, k, dv, _base_entry(name), ne_k, te_k, nd_k, pc.get('mode'), pc['reps']),
+                     dict(index=k, **desc))
+            break
+    ctx.extra['max_dev_profile_vs_scalar'] = max(ctx.extra.get('max_dev_profile_vs_scalar', 0.0), worst_sc)
     if mod is not None:
         ctx.extra['max_dev_profile'] = max(ctx.extra.get('max_dev_profile', 0.0), worst)
         if not agree:
@@ -813,9 +962,10 @@ def run_profiles(ctx, env, n):
     outs = ctx.driver([pc['line'] for pc in pcs])
     for pc, o in zip(pcs, outs):
         case = pc['case']
-        key = ('profile', pc['which'], pc['interp'], pc['dim'], tuple(sorted(pc['reps'].items())), case['donor'], pc['donor_given'], pc['give_fv'])
-        ctx.case(key=key, sample=dict(stream='profile', which=pc['which'], through_interpolators=pc['interp'], dim=pc['dim'],
-                                      representations=pc['reps'], donor=case['donor'], donor_density_given=pc['donor_given'],
+        key = ('profile', pc['which'], pc['interp'], pc['dim'], tuple(sorted(pc['reps'].items())), pc['mode'], case['donor'], pc['donor_given'], pc['give_fv'])
+        ctx.case(key=key, sample=dict(stream='profile', which=pc['which'], through_interpolators=pc['interp'], dim=pc['dim'], mode=pc['mode'],
+                                      representations=pc['reps'], patterns={k: v['pattern'] for k, v in pc['fields'].items()},
+                                      donor=case['donor'], donor_density_given=pc['donor_given'],
                                       free_variable=pc['give_fv'], Z=case['Z']) if rng.random() < 0.05 else None)
         check_profile(ctx, env, pc, o)
 
@@ -881,9 +1031,40 @@ def run_malformed(ctx, env):
 # ---------------------------------------------------------------------------------------------------------------
 # neutrality matching at profile level, interpolators and equilibrium maps (S: entry points agree)
 # ---------------------------------------------------------------------------------------------------------------
+def build_species(env, rng, spfields, grid, dim):
+    """python objects for the `n_species` argument: every species either an ndarray (charge, *profile shape) or a
+    {charge: profile} dict whose insertion order is ascending / descending / ions-first / shuffled and whose keys are python
+    ints or numpy integers; the container is a list or a tuple.  Returns (objects, description)."""
+    objs, how = [], []
+    for sp in spfields:
+        form = rng.choice(['ndarray', 'dict', 'dict', 'dict'])
+        if form == 'ndarray':
+            ak = 'arr1' if dim == 1 else 'arr2'
+            objs.append(np.array([make_rep(env, dict(f, kind=ak), grid)[0] for f in sp]))
+            how.append('ndarray')
+            continue
+        order = list(range(len(sp)))
+        o = rng.choice(['ascending', 'descending', 'ions-first', 'shuffled'])
+        if o == 'descending':
+            order.reverse()
+        elif o == 'ions-first':
+            order = order[1:] + order[:1]
+        elif o == 'shuffled':
+            rng.shuffle(order)
+        keyt = rng.choice(['int', 'int', 'np.int64'])
+        d = {}
+        for z in order:
+            d[z if keyt == 'int' else np.int64(z)] = make_rep(env, sp[z], grid)[0]
+        objs.append(d)
+        how.append('dict:%s:%s:%s' % (o, keyt, '+'.join(sp[z]['kind'] for z in order)))
+    cont = rng.choice(['list', 'tuple'])
+    return (tuple(objs) if cont == 'tuple' else objs), how + [cont]
+
+
 def run_entry_agreement(ctx, env, n):
-    """profile-level match_plasma_neutrality (K through per-index `mn` lines) and the derived entry points
-    (interpolators1d/2d_match_plasma_neutrality, equilibrium_map3d_*) against the direct ones"""
+    """profile-level match_plasma_neutrality (K through per-index `mn` lines, S through scalar calls) and the derived entry
+    points (interpolators1d/2d_match_plasma_neutrality, abundance_axisymmetric_mapper, equilibrium_map3d_*) against
+    point-by-point scalar calls of the direct entry points"""
     from raysect.core.math.function.float import Interpolator1DArray
     rng = ctx.rng
     ib = env.ib
@@ -897,72 +1078,106 @@ def run_entry_agreement(ctx, env, n):
         npt = rng.randint(3, 6)
         xs = [1.05 * i / (npt - 1) for i in range(npt)]
         ys = [0.2 + 0.4 * j for j in range(rng.randint(2, 3))]
-        grid = (xs,) if dim == 1 else (xs, ys)
-        co = {k: _affine(rng, b, dim) for k, b in (('ne', case['ne']), ('te', case['te']), ('nd', case['nD'] or case['ne'] * 0.02), ('dens', case['dens']))}
-        nsp = rng.randint(1, 2)
-        spco = [[_affine(rng, case['ne'] * rng.uniform(0.001, 0.03), dim) for _ in range(rng.randint(2, 4))] for _ in range(nsp)]
-        fk = 'f1' if dim == 1 else 'f2'
-        ak = 'arr1' if dim == 1 else 'arr2'
-        rep = lambda c: make_rep(env, rng.choice([fk, ak]), c, grid)[0]      # noqa
+        grid = [xs] if dim == 1 else [xs, ys]
+        kinds = ['arr1', 'f1', 'f1n'] if dim == 1 else ['arr2', 'f2']
+        mode, pat = gen_patterns(rng, dim)
+        fields = {k: gen_field(rng, b, dim, grid, kinds, pat[k])
+                  for k, b in (('ne', case['ne']), ('te', case['te']), ('nd', case['nD'] or case['ne'] * 0.02), ('dens', case['dens']))}
+        spfields = [[gen_field(rng, case['ne'] * rng.uniform(0.001, 0.03), dim, grid, kinds, rng.choice(['affine', 'flat', 'random', 'steps']))
+                     for _ in range(rng.randint(2, 4))] for _ in range(rng.randint(1, 2))]
+        vals = {k: field_values(f, grid) for k, f in fields.items()}
+        spvals = [[field_values(f, grid) for f in sp] for sp in spfields]
         fv = np.array(xs) if dim == 1 else (np.array(xs), np.array(ys))
-        ne_o, te_o, nd_o, dens_o = rep(co['ne']), rep(co['te']), rep(co['nd']), rep(co['dens'])
+        ne_o, te_o, nd_o, dens_o = (make_rep(env, fields[k], grid)[0] for k in ('ne', 'te', 'nd', 'dens'))
         nd_arg = nd_o if case['donor'] else None
-        species = []
-        for sp in spco:
-            if rng.random() < 0.5:
-                species.append({i: rep(c) for i, c in enumerate(sp)})
-            else:
-                species.append(np.array([make_rep(env, ak, c, grid)[0] for c in sp]))
-        # ---- direct match_plasma_neutrality: K per index
+        species, sphow = build_species(env, rng, spfields, grid, dim)
+        for h in sphow:
+            ctx.count('species:' + h.split(':')[0] + (':' + h.split(':')[1] if h.startswith('dict') else ''))
+        ctx.count('profile-mode:match:' + mode)
+        desc = dict(kind='entry-agreement', dim=dim, grid=grid, fields=fields, species_fields=spfields, species_given_as=sphow,
+                    mode=mode, case=case)
+        pts = [(x,) for x in xs] if dim == 1 else [(x, y) for x in xs for y in ys]
+        Z = case['Z']
+
+        def point(k):
+            nd_k = vals['nd'][k] if case['donor'] else 0.0
+            return dict(case, ne=vals['ne'][k], te=vals['te'][k], nD=nd_k, dens=vals['dens'][k],
+                        species=[[v[k] for v in sp] for sp in spvals])
+        # ---- point-by-point scalar calls: the reference for everything below
+        ref = {'frac': [], 'fd': [], 'mn': []}
+        for k in range(len(pts)):
+            cs = point(k)
+            for which in ref:
+                ref[which].append(scalar_call(env, case, which, cs['ne'], cs['te'], cs['nD'], case['donor'], dens=cs['dens'], species=cs['species']))
+        # ---- direct match_plasma_neutrality: K per index, S per index
         st, r = guarded(ib.match_plasma_neutrality, env.Mock(case), el, species, ne_o, te_o, donor, nd_arg, case['dq'], free_variable=fv)
-        desc = dict(kind='entry-agreement', dim=dim, grid=grid, coefs=co, species_coefs=spco, case=case)
-        ctx.case(key=('match-profile', dim, case['Z'], case['donor'], it), sample=None)
+        caps = list(CAP)
+        ctx.case(key=('match-profile', dim, case['Z'], case['donor'], mode, tuple(sphow), it),
+                 sample=dict(stream='match-profile', dim=dim, Z=Z, mode=mode, species_given_as=sphow, donor=case['donor']) if rng.random() < 0.1 else None)
         ctx.count('profile:match_plasma_neutrality:dim%d' % dim)
         if st != 'ok':
             ctx.fail(SIG_NOTERM if st == 'timeout-lsq' else 'C09:match_plasma_neutrality:%s' % ('timeout' if st == 'timeout' else 'raised-' + st),
-                     'match_plasma_neutrality (profile level) %s: %s' % (st, r), desc)
+                     'match_plasma_neutrality (profile level, species given as %r) %s: %s' % (sphow, st, r), desc)
             continue
-        pts = [(x,) for x in xs] if dim == 1 else [(x, y) for x in xs for y in ys]
-        Z = case['Z']
-        caps = list(CAP)
         direct = np.stack([np.asarray(r[z], dtype=float).reshape(-1) for z in range(Z + 1)], axis=1)
-        for k, pt in enumerate(pts):
-            ne_k, te_k = _val(co['ne'], *pt), _val(co['te'], *pt)
-            nd_k = _val(co['nd'], *pt) if case['donor'] else 0.0
-            cs = dict(case, ne=ne_k, te=te_k, nD=nd_k, species=[[_val(c, *pt) for c in sp] for sp in spco])
+        for k in range(len(pts)):
+            cs = point(k)
             lines.append(point_lines(cs)[3])
             todo.append((cs, direct[k].tolist(), desc, k, caps[k] if len(caps) == len(pts) else None))
-        # ---- derived entry points
+        if all(v is not None for v in ref['mn']):
+            refmn = np.array(ref['mn'])
+            sc = float(np.max(np.abs(refmn))) or 1.0
+            dev = float(np.max(np.abs(direct - refmn))) / sc
+            if not dev <= 1e-9:
+                k = int(np.argmax(np.max(np.abs(direct - refmn), axis=1)))
+                ctx.count('S-fail:C09:match_plasma_neutrality:differs-from-scalar-call')
+                ctx.fail('C09:match_plasma_neutrality:differs-from-scalar-call',
+                         'match_plasma_neutrality (dim %d, species given as %r, profile mode %s) at index %d differs by %.3g (relative to the '
+                         'largest density) from the call with scalar n_e=%.6g, T_e=%.6g, n_D=%.6g and the same species densities' % (
+                             dim, sphow, mode, k, dev, point(k)['ne'], point(k)['te'], point(k)['nD']), dict(index=k, **desc))
+        # ---- derived entry points at the knots against the scalar references
         checks = []
+        A = (env.Mock(case), el)
         if dim == 1:
-            checks.append(('interpolators1d_match_plasma_neutrality',
-                           lambda: ib.interpolators1d_match_plasma_neutrality(env.Mock(case), el, fv, species, ne_o, te_o, donor, nd_arg, case['dq']),
-                           lambda f, pt: f(pt[0]), direct, pts))
+            checks += [('interpolators1d_match_plasma_neutrality', 'mn',
+                        lambda: ib.interpolators1d_match_plasma_neutrality(*A, fv, species, ne_o, te_o, donor, nd_arg, case['dq']), lambda f, pt: f(pt[0])),
+                       ('interpolators1d_fractional', 'frac',
+                        lambda: ib.interpolators1d_fractional(*A, fv, ne_o, te_o, donor, nd_arg, case['dq']), lambda f, pt: f(pt[0])),
+                       ('interpolators1d_from_elementdensity', 'fd',
+                        lambda: ib.interpolators1d_from_elementdensity(*A, fv, dens_o, ne_o, te_o, donor, nd_arg, case['dq']), lambda f, pt: f(pt[0]))]
         else:
-            checks.append(('interpolators2d_match_plasma_neutrality',
-                           lambda: ib.interpolators2d_match_plasma_neutrality(env.Mock(case), el, fv, species, ne_o, te_o, donor, nd_arg, case['dq']),
-                           lambda f, pt: f(pt[0], pt[1]), direct, pts))
-        if dim == 2:
             def _axi():
-                f2d = ib.interpolators2d_match_plasma_neutrality(env.Mock(case), el, fv, species, ne_o, te_o, donor, nd_arg, case['dq'])
-                return ib.abundance_axisymmetric_mapper(f2d)
-            # (r, z) knots reached as (x, y, z) = (r cos a, r sin a, z)
-            checks.append(('abundance_axisymmetric_mapper', _axi,
-                           lambda f, pt: f(pt[0] * math.cos(0.7), pt[0] * math.sin(0.7), pt[1]), direct, pts))
-        for name, mk, ev, ref, pts_ in checks:
+                return ib.abundance_axisymmetric_mapper(
+                    ib.interpolators2d_match_plasma_neutrality(*A, fv, species, ne_o, te_o, donor, nd_arg, case['dq']))
+            checks += [('interpolators2d_match_plasma_neutrality', 'mn',
+                        lambda: ib.interpolators2d_match_plasma_neutrality(*A, fv, species, ne_o, te_o, donor, nd_arg, case['dq']), lambda f, pt: f(pt[0], pt[1])),
+                       ('interpolators2d_fractional', 'frac',
+                        lambda: ib.interpolators2d_fractional(*A, fv, ne_o, te_o, donor, nd_arg, case['dq']), lambda f, pt: f(pt[0], pt[1])),
+                       ('interpolators2d_from_elementdensity', 'fd',
+                        lambda: ib.interpolators2d_from_elementdensity(*A, fv, dens_o, ne_o, te_o, donor, nd_arg, case['dq']), lambda f, pt: f(pt[0], pt[1])),
+                       # (r, z) knots reached as (x, y, z) = (r cos a, r sin a, z)
+                       ('abundance_axisymmetric_mapper', 'mn', _axi, lambda f, pt: f(pt[0] * math.cos(0.7), pt[0] * math.sin(0.7), pt[1]))]
+        for name, which, mk, ev in checks:
+            if any(v is None for v in ref[which]):
+                continue
             st, fm = guarded(mk)
             ctx.count('entry:' + name)
             if st != 'ok':
                 ctx.fail(SIG_NOTERM if st == 'timeout-lsq' else 'C09:%s:%s' % (name, 'timeout' if st == 'timeout' else 'raised-' + st), '%s: %s %s' % (name, st, fm), desc)
                 continue
-            sc = float(np.max(np.abs(ref))) or 1.0
-            dev = max(abs(ev(fm[z], pt) - ref[k][z]) for k, pt in enumerate(pts_) for z in range(Z + 1)) / sc
-            ctx.case(key=(name, dim, case['Z'], it))
+            rf = np.array(ref[which])
+            sc = float(np.max(np.abs(rf))) or 1.0
+            dev = max(abs(ev(fm[z], pt) - rf[k][z]) for k, pt in enumerate(pts) for z in range(Z + 1)) / sc
+            ctx.case(key=(name, dim, case['Z'], mode, it))
             if not dev <= (1e-7 if name == 'abundance_axisymmetric_mapper' else 1e-9):
-                ctx.fail('C09:%s:differs-from-direct' % name, '%s at the knots differs from match_plasma_neutrality by %.3g (relative to the largest density)' % (name, dev), desc)
+                ctx.count('S-fail:C09:%s:differs-from-scalar-call' % name)
+                ctx.fail('C09:%s:differs-from-scalar-call' % name,
+                         '%s at the knots differs from point-by-point scalar calls of %s by %.3g (relative to the largest value; profile mode %s, '
+                         'species given as %r)' % (name, {'mn': 'match_plasma_neutrality', 'frac': 'fractional_abundance', 'fd': 'from_elementdensity'}[which],
+                                                   dev, mode, sphow), desc)
         # ---- equilibrium maps (1-D profiles over psi_n)
         if dim == 1 and it % 2 == 0:
-            _equilibrium_checks(ctx, env, case, el, donor, fv, ne_o, te_o, nd_arg, dens_o, species, desc, Interpolator1DArray)
+            _equilibrium_checks(ctx, env, case, el, donor, fv, ne_o, te_o, nd_arg, dens_o, species, desc, Interpolator1DArray, ref, mode)
     if lines:
         outs = ctx.driver(lines)
         for (cs, impl, desc, k, rec), o in zip(todo, outs):
@@ -1003,12 +1218,13 @@ def _oracle_match_only(ctx, cs, n, desc, k, rec=None):
             ctx.fail(sig, 'match_plasma_neutrality, profile index %d (n_e=%.4g, n_D=%.4g): %s' % (k, cs['ne'], cs['nD'], text), dict(index=k, **desc))
 
 
-def _equilibrium_checks(ctx, env, case, el, donor, psin, ne_o, te_o, nd_arg, dens_o, species, desc, Interp):
+def _equilibrium_checks(ctx, env, case, el, donor, psin, ne_o, te_o, nd_arg, dens_o, species, desc, Interp, ref, mode):
+    """equilibrium_map3d_* at points inside the LCFS against the interpolation (linear; cubic for the matching variant, which
+    hands map3d a (psi, values) pair) of point-by-point scalar calls of the direct entry points at the psi_n knots"""
     ib = env.ib
     eq = env.equilibrium()
     Z = case['Z']
     rng = ctx.rng
-    # sample points inside the LCFS
     pts = []
     ax = eq.magnetic_axis
     while len(pts) < 4:
@@ -1018,35 +1234,34 @@ def _equilibrium_checks(ctx, env, case, el, donor, psin, ne_o, te_o, nd_arg, den
             ang = rng.uniform(0, 2 * math.pi)
             pts.append((r * math.cos(ang), r * math.sin(ang), z, eq.psi_normalised(r, z)))
     trio = [
-        ('equilibrium_map3d_fractional', 'fractional_abundance', 'linear',
-         lambda: ib.equilibrium_map3d_fractional(env.Mock(case), el, eq, psin, ne_o, te_o, donor, nd_arg, case['dq']),
-         lambda: ib.fractional_abundance(env.Mock(case), el, ne_o, te_o, donor, nd_arg, case['dq'], free_variable=psin)),
-        ('equilibrium_map3d_from_elementdensity', 'from_elementdensity', 'linear',
-         lambda: ib.equilibrium_map3d_from_elementdensity(env.Mock(case), el, eq, psin, dens_o, ne_o, te_o, donor, nd_arg, case['dq']),
-         lambda: ib.from_elementdensity(env.Mock(case), el, dens_o, ne_o, te_o, donor, nd_arg, case['dq'], free_variable=psin)),
-        ('equilibrium_map3d_match_plasma_neutrality', 'match_plasma_neutrality', 'cubic',
-         lambda: ib.equilibrium_map3d_match_plasma_neutrality(env.Mock(case), el, eq, psin, species, ne_o, te_o, donor, nd_arg, case['dq']),
-         lambda: ib.match_plasma_neutrality(env.Mock(case), el, species, ne_o, te_o, donor, nd_arg, case['dq'], free_variable=psin)),
+        ('equilibrium_map3d_fractional', 'frac', 'fractional_abundance', 'linear',
+         lambda: ib.equilibrium_map3d_fractional(env.Mock(case), el, eq, psin, ne_o, te_o, donor, nd_arg, case['dq'])),
+        ('equilibrium_map3d_from_elementdensity', 'fd', 'from_elementdensity', 'linear',
+         lambda: ib.equilibrium_map3d_from_elementdensity(env.Mock(case), el, eq, psin, dens_o, ne_o, te_o, donor, nd_arg, case['dq'])),
+        ('equilibrium_map3d_match_plasma_neutrality', 'mn', 'match_plasma_neutrality', 'cubic',
+         lambda: ib.equilibrium_map3d_match_plasma_neutrality(env.Mock(case), el, eq, psin, species, ne_o, te_o, donor, nd_arg, case['dq'])),
     ]
-    for name, direct_name, order, mk, mk_direct in trio:
+    for name, which, direct_name, order, mk in trio:
+        if any(v is None for v in ref[which]):
+            continue
         st, m = guarded(mk)
-        st2, dr = guarded(mk_direct)
         ctx.count('entry:' + name)
-        ctx.case(key=(name, case['Z'], case['donor'], f2b(case['ne'])))
+        ctx.case(key=(name, case['Z'], case['donor'], mode, f2b(case['ne'])))
         if st != 'ok':
             ctx.fail(SIG_NOTERM if st == 'timeout-lsq' else 'C09:%s:%s' % (name, 'timeout' if st == 'timeout' else 'raised-' + st), '%s: %s %s' % (name, st, m), desc)
             continue
-        if st2 != 'ok':
-            continue
-        sc = max(float(np.max(np.abs(dr[z]))) for z in range(Z + 1)) or 1.0
+        rf = np.array(ref[which])
+        sc = float(np.max(np.abs(rf))) or 1.0
         dev = 0.0
         for z in range(Z + 1):
-            ref = Interp(np.asarray(psin, dtype=float), np.asarray(dr[z], dtype=float), order, 'none', 0)
+            itp = Interp(np.asarray(psin, dtype=float), np.ascontiguousarray(rf[:, z]), order, 'none', 0)
             for (x, y, zz, ps) in pts:
-                dev = max(dev, abs(m[z](x, y, zz) - ref(ps)) / sc)
+                dev = max(dev, abs(m[z](x, y, zz) - itp(ps)) / sc)
         if not dev <= 1e-9:
-            ctx.fail('C09:%s:differs-from-direct' % name,
-                     '%s differs from the %s interpolation of %s over psi_n by %.3g (relative to the largest value)' % (name, order, direct_name, dev), desc)
+            ctx.count('S-fail:C09:%s:differs-from-scalar-call' % name)
+            ctx.fail('C09:%s:differs-from-scalar-call' % name,
+                     '%s differs from the %s interpolation over psi_n of point-by-point scalar calls of %s by %.3g (relative to the largest '
+                     'value; profile mode %s)' % (name, order, direct_name, dev, mode), desc)
 
 
 # ---------------------------------------------------------------------------------------------------------------
@@ -1085,7 +1300,10 @@ def run(ctx):
                 'monotone family (total range <= 1.5 decades), constant or (n_e,T_e)-dependent, n_e in 1e17..1e21, T_e in 1..1e4, donor '
                 'present/absent, n_D/n_e in 1e-4..1 (or 0), donor charge 0/1, 0-3 other species (12% exceeding n_e); profile cases: every '
                 'combination of scalar / 1-D / 2-D ndarray / Function1D (python and raysect-native) / Function2D (+free variable, tuple or list) '
-                'for n_e, T_e, n_D (or absent) and element density through the direct, interpolator and equilibrium-mapped entry points; '
+                'for n_e, T_e, n_D (or absent) and element density through the direct, interpolator and equilibrium-mapped entry points, in the '
+                'modes affine / scan (exactly one of n_e, T_e, n_D varies, the others constant) / steps (piecewise constant, repeated coordinates), '
+                'integer-typed T_e, numpy scalars; species as ndarray or {charge: profile} dicts in ascending / descending / ions-first / shuffled '
+                'insertion order with int or numpy-int keys, in a list or tuple; every profile index compared with the model and with a scalar call; '
                 'malformed shape combinations; a wide-range stream (rates over 6-10 decades) for the least-squares solver; corpus first; '
                 'distinct = (stream, entry point, Z, donor, representations, n_e bit pattern); non-trivial = the implementation was actually '
                 'called and its numbers were checked by the oracle')
@@ -1138,7 +1356,7 @@ def run(ctx):
     # 6. profile stream, malformed combinations, derived entry points
     run_profiles(ctx, env, ctx.n(120, 4000))
     run_malformed(ctx, env)
-    run_entry_agreement(ctx, env, ctx.n(16, 300))
+    run_entry_agreement(ctx, env, ctx.n(24, 300))
     # 7. solver robustness on wide-range rate tables (S only)
     wide = [gen_point_case(ctx.rng, wide=True) for _ in range(ctx.n(40, 500))]
     for c in wide:
